@@ -137,12 +137,29 @@ def stream_split__twin(text: str) -> bool:
 # --------------------------------------------------------------------------------------------------------------
 # (4) CodeRecord.update_statements / _index_statements_diff bookkeeping
 
-POOL = [Assignment.create(Expr.symbol('S%d' % i), Expr.integer(i)) for i in range(4)]
+class Stmt(Assignment):
+    """Opaque stand-in statement: a real Assignment (S<i> = i) whose equality is its identity number.  (Assignment.__eq__
+    calls the builtin hash(), which CrossHair replaces by an unconstrained value; the bookkeeping under test only needs
+    == on statements.)"""
+
+    def __init__(self, sid):
+        super().__init__(Expr.symbol('S%d' % sid), Expr.integer(sid))
+        self.sid = sid
+
+    def __eq__(self, other):
+        return isinstance(other, Stmt) and self.sid == other.sid
+
+    def __hash__(self):
+        return self.sid
+
+
+POOL = [Stmt(i) for i in range(4)]
 NPOOL = _env_int('VH_NPOOL', 3)
 SEQ_MAX = _env_int('VH_SEQMAX', 2)
 OLD_N = _env_int('VH_OLDN', -1)
 NEW_N = _env_int('VH_NEWN', -1)
 OLD_0 = _env_int('VH_OLD0', -1)
+GAP_MAX = _env_int('VH_GAPMAX', 1)
 
 
 _CONC = list(range(16))
@@ -246,7 +263,7 @@ def _seq_pre(no, o0, o1, o2, nn, n0, n1, n2, g0, g1, g2, g3):
         if not 0 <= v < NPOOL:
             return False
     for g in (g0, g1, g2, g3):
-        if not 0 <= g <= 2:
+        if not 0 <= g <= GAP_MAX:
             return False
     return True
 
@@ -255,15 +272,18 @@ def update_statements(no: int, o0: int, o1: int, o2: int, nn: int, n0: int, n1: 
                       g0: int, g1: int, g2: int, g3: int, m1: bool, m2: bool) -> bool:
     """
     One update_statements(new) on a record with `no` old statements (consecutive ones may share a node = block IF),
-    0..2 non-statement nodes in every gap: all non-statement nodes survive once and in order, the statement nodes spell
+    0..GAP_MAX non-statement nodes in every gap: all non-statement nodes survive once and in order, the statement nodes spell
     `new`, the new index is consistent, unchanged input returns the record itself, and when old is a prefix of new
     every old statement node is kept.
     pre: _seq_pre(no, o0, o1, o2, nn, n0, n1, n2, g0, g1, g2, g3)
     post: _ == True
     """
-    old_ids = [_c(o0), _c(o1), _c(o2)][:_c(no)]
-    new_ids = [_c(n0), _c(n1), _c(n2)][:_c(nn)]
-    rec, blanks, groups = build_record(old_ids, [_c(g0), _c(g1), _c(g2), _c(g3)], [False, bool(m1), bool(m2)])
+    old_ids = [_c(v) for v in [o0, o1, o2][:_c(no)]]
+    new_ids = [_c(v) for v in [n0, n1, n2][:_c(nn)]]
+    merges = [False] + [bool(m) for m in [m1, m2][:max(0, len(old_ids) - 1)]] + [False, False]
+    ngroups = len(old_ids) - sum(1 for m in merges[:len(old_ids)] if m)
+    gaps = [_c(g) for g in [g0, g1, g2, g3][:ngroups + 1]] + [0, 0, 0, 0]
+    rec, blanks, groups = build_record(old_ids, gaps, merges)
     rec2 = rec.update_statements([POOL[i] for i in new_ids])
     if new_ids == old_ids:
         return rec2 is rec
@@ -285,10 +305,13 @@ def update_twice(no: int, o0: int, o1: int, nn: int, n0: int, n1: int, n2: int, 
     pre: 0 <= k1 < NPOOL and no <= 2
     post: _ == True
     """
-    old_ids = [_c(o0), _c(o1)][:_c(no)]
-    new_ids = [_c(n0), _c(n1), _c(n2)][:_c(nn)]
-    fin_ids = [_c(k0), _c(k1), _c(n2)][:_c(kk)]
-    rec, blanks, groups = build_record(old_ids, [_c(g0), _c(g1), _c(g2), 0], [False, bool(m1), False])
+    old_ids = [_c(v) for v in [o0, o1][:_c(no)]]
+    new_ids = [_c(v) for v in [n0, n1, n2][:_c(nn)]]
+    fin_ids = [_c(v) for v in [k0, k1, n2][:_c(kk)]]
+    merges = [False] + [bool(m) for m in [m1][:max(0, len(old_ids) - 1)]] + [False, False]
+    ngroups = len(old_ids) - sum(1 for m in merges[:len(old_ids)] if m)
+    gaps = [_c(g) for g in [g0, g1, g2][:ngroups + 1]] + [0, 0, 0, 0]
+    rec, blanks, groups = build_record(old_ids, gaps, merges)
     rec2 = rec.update_statements([POOL[i] for i in new_ids])
     rec3 = rec2.update_statements([POOL[i] for i in fin_ids])
     if fin_ids == new_ids:
